@@ -128,12 +128,16 @@ Inductive corruption :=
 | KVersion (v : N)      (* same file with another version number *)
 | KBadHash              (* same file with a config_hash that is no configuration's hash *)
 | KRemove               (* file deleted *)
-| KForge (p : path) (s : lstats).  (* edited in place and still well-formed: the statistics of p's entry replaced *)
+| KForge (p : path) (s : lstats)   (* edited in place and still well-formed: the statistics of p's entry replaced *)
+| KForeign (v : N) (p : path) (s : lstats).  (* the file of another release: version v, p's entry with the
+                                                statistics that release computed (other semantics) *)
 
 Inductive op :=
 | Write (p : path) (c : N) (t : N)     (* create or overwrite p with content c at wall-clock second t *)
 | Delete (p : path)
 | Rename (p q : path)                  (* mv p q: q gets p's content and mtime *)
+| Copy (p q : path)                    (* q becomes another name for p's content and mtime: cp -p p q, or a
+                                          symbolic link q -> p as fs::metadata / fs::read see it *)
 | SetLanguages (c : langs)
 | Corrupt (k : corruption)
 | Run (k : cmd) (excl : list path) (t : N).
@@ -153,6 +157,15 @@ Definition corrupt (k : corruption) (cf : cache_file) : cache_file :=
                       end
                   | x => x
                   end
+  | KForeign v p s => if N.eqb v CACHE_VERSION then cf else
+                  match cf with
+                  | CValid _ h es =>
+                      match lookup p es with
+                      | Some e => CValid v h (set_key p (mkCE (ce_hash e) s (ce_mtime e) (ce_size e)) es)
+                      | None => CValid v h es
+                      end
+                  | x => x
+                  end
   end.
 
 (* the world after an operation, and for a Run the pair (output with cache, output without) *)
@@ -164,6 +177,11 @@ Definition step (w : world) (o : op) : world * option (list (path * lstats) * li
       match lookup p (w_files w) with
       | None => (w, None)
       | Some f => (mkW (set_key q f (remove_key p (w_files w))) (w_cfg w) (w_cache w), None)
+      end
+  | Copy p q =>
+      match lookup p (w_files w) with
+      | None => (w, None)
+      | Some f => (mkW (set_key q f (w_files w)) (w_cfg w) (w_cache w), None)
       end
   | SetLanguages c => (mkW (w_files w) c (w_cache w), None)
   | Corrupt k => (mkW (w_files w) (w_cfg w) (corrupt k (w_cache w)), None)
@@ -194,10 +212,11 @@ Definition collides (w : world) (p : path) (c m : N) : bool :=
 (* D13: a rewrite that keeps the size, within the mtime second of the cached entry *)
 Definition racy_write (w : world) (o : op) : bool :=
   match o with Write p c t => collides w p c t | _ => false end.
-(* a rename that puts, at a cached path, another file with the same mtime second and size *)
+(* a rename (or copy / link) that puts, at a cached path, another file with the same mtime second
+   and size *)
 Definition racy_rename (w : world) (o : op) : bool :=
   match o with
-  | Rename p q => match lookup p (w_files w) with Some f => collides w q (f_cid f) (f_mtime f) | None => false end
+  | Rename p q | Copy p q => match lookup p (w_files w) with Some f => collides w q (f_cid f) (f_mtime f) | None => false end
   | _ => false
   end.
 
